@@ -157,6 +157,11 @@ impl SessionEngine {
     pub fn continuities(&self) -> Arc<ContinuityStore> {
         self.continuity_store.clone()
     }
+
+    #[cfg(rip_verif)]
+    pub(crate) fn verif_workspace_lock(&self) -> &WorkspaceLock {
+        self.workspace_lock.as_ref()
+    }
 }
 
 fn default_data_dir() -> PathBuf {
